@@ -159,6 +159,77 @@ def program(rng, lang):
     return '\n'.join(items), {'generics': sorted(set(all_generics)), 'positions': positions, 'triggers': sorted(g.triggers)}
 
 
+PY_LEAF = {'datetime': 'OffsetDateTime', 'bytes': 'Vec<u8>'}
+
+
+def py_focus(rng):
+    """Python programs on the boundary of the two recorded classes (what C12_python proves beyond the body):
+    a serde(default) OffsetDateTime / Vec<u8> field with or without something else in the file that registers the
+    plain text (plain sibling field, field of another struct or of a struct variant, the formatter itself below
+    Option / Vec / HashMap, a payload, an alias), and a generic alias with or without a struct / data-carrying
+    enum (or only a unit enum, or a struct on ANOTHER parameter) declaring the TypeVar.  -> (source, cfg, info)"""
+    names = rng.sample(TYPE_NAMES, 6)
+    items, generics, triggers = [], [], set()
+    cfg = {'type_mappings': rng.choice([{}, {'Vec<u8>': 'bytes'}, {'Vec<u8>': 'bytes'}])}
+    parts = rng.choice([['default'], ['alias'], ['default', 'alias']])
+    if 'default' in parts:
+        kinds = rng.sample(['datetime', 'bytes'], rng.choice([1, 1, 2]))
+        fields = [f'    #[serde(default)]\n    pub d{i}: {PY_LEAF[kd]},\n' for i, kd in enumerate(kinds)]
+        triggers.update(kinds)
+        for kd in kinds:
+            leaf = PY_LEAF[kd]
+            comp = rng.choice(['none', 'none', 'plain_same', 'plain_other', 'variant_field', 'deep_field', 'deep_alias', 'option_default',
+                               'payload', 'alias_plain', 'wrapped_other', 'const_like'])
+            deep = rng.choice([f'Option<{leaf}>', f'Vec<{leaf}>', f'HashMap<String, {leaf}>', f'Option<Vec<{leaf}>>', f'Wrap<{leaf}>'])
+            if comp == 'plain_same':
+                fields.insert(rng.randint(0, len(fields)), f'    pub p_{kd}: {leaf},\n')
+            elif comp == 'plain_other':
+                items.append(f'#[typeshare]\npub struct {names[1]}{kd.capitalize()} {{\n    pub p: {leaf},\n}}\n')
+            elif comp == 'variant_field':
+                items.append(f'#[typeshare]\n#[serde(tag = "type", content = "content")]\npub enum {names[2]}{kd.capitalize()} {{\n    A {{\n        p: {leaf},\n    }},\n    B,\n}}\n')
+            elif comp == 'deep_field':
+                fields.append(f'    pub deep_{kd}: {deep},\n')
+            elif comp == 'deep_alias':
+                items.append(f'#[typeshare]\npub type {names[3]}{kd.capitalize()} = {deep};\n')
+            elif comp == 'option_default':
+                fields.append(f'    #[serde(default)]\n    pub o_{kd}: Option<{leaf}>,\n')
+            elif comp == 'payload':
+                items.append(f'#[typeshare]\n#[serde(tag = "type", content = "content")]\npub enum {names[2]}{kd.capitalize()}P {{\n    A({leaf}),\n    B({deep}),\n}}\n')
+            elif comp == 'alias_plain':
+                items.append(f'#[typeshare]\npub type {names[3]}{kd.capitalize()}P = {leaf};\n')
+            elif comp == 'wrapped_other':
+                items.append(f'#[typeshare]\npub struct {names[1]}{kd.capitalize()}W {{\n    #[serde(default)]\n    pub w: {leaf},\n}}\n')
+            elif comp == 'const_like':
+                items.append(f'#[typeshare]\npub struct {names[1]}{kd.capitalize()}N({leaf});\n')
+            if 'Wrap<' in deep and comp in ('deep_field', 'deep_alias', 'payload'):
+                triggers.add('wrap')
+        items.insert(rng.randint(0, len(items)), f'#[typeshare]\npub struct {names[0]} {{\n{"".join(fields)}}}\n')
+    if 'alias' in parts:
+        g = rng.choice(GENERIC_NAMES)
+        other = rng.choice([x for x in GENERIC_NAMES if x != g])
+        body = rng.choice([f'Vec<{g}>', f'HashMap<String, {g}>', f'Option<{g}>', f'Vec<Option<{g}>>'])
+        items.insert(rng.randint(0, len(items)), f'#[typeshare]\npub type {names[4]}<{g}> = {body};\n')
+        generics.append(g); triggers.add('generic_alias')
+        comp = rng.choice(['none', 'none', 'struct', 'alg_enum', 'struct_other', 'unit_enum', 'variant_struct', 'alias_other'])
+        if comp == 'struct':
+            items.insert(rng.randint(0, len(items)), f'#[typeshare]\npub struct {names[5]}<{g}> {{\n    pub v: {g},\n}}\n')
+        elif comp == 'alg_enum':
+            items.insert(rng.randint(0, len(items)), f'#[typeshare]\n#[serde(tag = "type", content = "content")]\npub enum {names[5]}<{g}> {{\n    A({g}),\n    B,\n}}\n')
+        elif comp == 'struct_other':
+            items.insert(rng.randint(0, len(items)), f'#[typeshare]\npub struct {names[5]}<{other}> {{\n    pub v: {other},\n}}\n'); generics.append(other)
+        elif comp == 'unit_enum':
+            items.insert(rng.randint(0, len(items)), f'#[typeshare]\npub enum {names[5]} {{\n    A,\n    B,\n}}\n')
+        elif comp == 'variant_struct':
+            # the struct variant's helper class declares the enum's parameter it mentions
+            items.insert(rng.randint(0, len(items)), f'#[typeshare]\n#[serde(tag = "type", content = "content")]\npub enum {names[5]}<{g}> {{\n    A {{\n        v: {g},\n    }},\n}}\n')
+        elif comp == 'alias_other':
+            items.insert(rng.randint(0, len(items)), f'#[typeshare]\npub type {names[5]}Al<{g}> = Vec<{g}>;\n')
+    if 'wrap' in triggers:
+        items.insert(rng.randint(0, len(items)), '#[typeshare]\npub struct Wrap<W> {\n    pub inner: W,\n}\n')
+        generics.append('W')
+    return '\n'.join(items), cfg, {'generics': sorted(set(generics)), 'positions': [], 'triggers': sorted(triggers | {'py_focus'})}
+
+
 def config(rng, lang):
     if lang == 'swift':
         return {'prefix': rng.choice(['', '', 'OP']), 'codablevoid_constraints': rng.choice([[], ['Equatable']])}
@@ -394,6 +465,18 @@ WITNESSES = [
 ]
 
 
+# inputs that must lie INSIDE a theorem's hypotheses and exercise it (the non-vacuity examples as real source):
+# (name, lang, cfg, source, helper names the real output must use)
+PINS = [
+    # Proofs/C12.v c12_py_full_pd / Props C12_python_nonvacuous
+    ('C12_python_nonvacuous', 'python', {'type_mappings': {'Vec<u8>': 'bytes'}},
+     '#[typeshare]\npub type GA<T> = Vec<T>;\n\n#[typeshare]\npub struct S<T> {\n    pub a: T,\n    #[serde(default)]\n    pub at: OffsetDateTime,\n    pub at2: OffsetDateTime,\n'
+     '    #[serde(default)]\n    pub raw: Vec<u8>,\n    pub raw2: Option<Option<Vec<u8>>>,\n}\n'),
+]
+PIN_USES = {'C12_python_nonvacuous': ['T', 'TypeVar', 'parse_rfc3339', 'serialize_datetime_data', 'deserialize_binary_data', 'serialize_binary_data', 'datetime',
+                                      'Annotated', 'Generic', 'Optional', 'List']}
+
+
 def evaluate(chk, cases):
     """runs real generator and model on the cases; returns list of per-case dicts"""
     srcs = sorted(set(c['src'] for c in cases))
@@ -444,7 +527,9 @@ def run(chk):
                 'parameters) whose member types are a trigger leaf ((), u8/u16/u32/U53, OffsetDateTime, Vec<u8>, a generic parameter) or a plain leaf '
                 'wrapped 0-5 times in Vec/Option/HashMap/[T;3]/&[T]/Box/Wrap<T>; serde(default), Option, renamed keys; 25% single-trigger programs; '
                 'configurations: Swift prefix, CodableVoid constraints, Kotlin empty package / prefix / JvmInline, Go acronyms / no_pointer_slice, Python '
-                'Vec<u8> -> bytes mapping. non-trivial = distinct (language, configuration, program) inside dom with a non-empty use set')
+                'Vec<u8> -> bytes mapping; plus Python programs on the boundary of the two Python classes (py_focus: a serde(default) OffsetDateTime / '
+                'Vec<u8> field with / without something else registering the plain text; a generic alias with / without a struct / data-carrying enum '
+                'declaring its parameter) and the non-vacuity input of C12_python as real source. non-trivial =distinct (language, configuration, program) inside dom with a non-empty use set')
     chk.assumptions = ['syn is not modelled: the model receives the AST libdrive produces from the same text',
                        'the real observation is recovered from text by a token-level reader (strings/comments removed by lib/extract.py lexers); '
                        'Python additionally through ast.parse + name resolution; no Swift/Scala/Kotlin/Go compiler is installed',
@@ -455,7 +540,14 @@ def run(chk):
     rng = chk.rng
     n = 6000 if chk.tier == "quick" else 90000
     wit = [{'lang': l, 'cfg': cfg, 'src': s, 'info': {'generics': ['T'], 'positions': [], 'triggers': ['witness']}, 'witness': fid} for fid, l, cfg, s in WITNESSES]
-    cases = wit + cases_for(rng, n)
+    # Python, the halves C12_python adds to the body theorem (TypeVar for every parameter, helper functions defined, header uses):
+    # programs on the boundary of the two classes, and the non-vacuity example of the theorem as real source
+    focus = []
+    for _ in range(800 if chk.tier == 'quick' else 12000):
+        src, cfg, info = py_focus(rng)
+        focus.append({'lang': 'python', 'cfg': cfg, 'src': src, 'info': info})
+    pins = [{'lang': l, 'cfg': cfg, 'src': s, 'info': {'generics': ['T'], 'positions': [], 'triggers': ['pin']}, 'pin': name} for name, l, cfg, s in PINS]
+    cases = wit + pins + focus + cases_for(rng, n)
     res = evaluate(chk, cases)
     corr = []
     for k, r in enumerate(res):
@@ -474,6 +566,15 @@ def run(chk):
                 corr.append(payload_of(r))
             continue
         good = r.get('good', False)
+        if 'py_focus' in c['info']['triggers']:
+            chk.count('py_focus'); chk.count('py_focus_known_' + str(r['known']))
+        if 'pin' in c:
+            chk.count('pins')
+            want = PIN_USES[c['pin']]
+            if not (r['dom'] and r['known'] is None and equal and set(want) <= set(impl[1])):
+                chk.violation(f'pin-{c["pin"]}', dict(payload_of(r), expected_uses=want),
+                              f'the non-vacuity input of {c["pin"]} is not inside the theorem\'s hypotheses on the real front end, or model and code disagree on it, or the real output does not use {want}',
+                              no_input=good)
         if c['lang'] == 'python':
             missing = py_unresolved(r['impl_raw'][1], set(VOCAB['python']) | set(c['info']['generics']))
             tok_missing = sorted(set(impl[1]) - set(impl[2]))
